@@ -1212,7 +1212,7 @@ def check(tier, seed):
         'events are produced by calling the encoder methods the way reactor/api/processes.py does; the reactor loop itself is not run',
     ]
     t_start = time.time()
-    common.standard_build(run, ['T11'])
+    common.standard_build(run, ['T11', 'T14'])
     rng = random.Random(seed)
 
     try:
